@@ -217,3 +217,70 @@ class Membership:
                     self.pruned += 1
                     return None
         return facts
+
+
+# ---------------------------------------------------------------- write_func wrapper shape (name-insensitive)
+def write_func_shape(model):
+    """Returns dict(gate=bool, order=bool) for broker.market.write_func: the wrapper rejects when the instance is not
+    open BEFORE calling the wrapped function and sets has_update only AFTER it returned (names are free)."""
+    from ..model import AnalysisError
+
+    wf = model.func("broker.market.write_func")
+    inner = [n for n in ast.walk(wf.node) if isinstance(n, ast.FunctionDef) and n is not wf.node]
+    if len(inner) != 1:
+        raise AnalysisError("write_func: wrapper function not found")
+    body = inner[0].body
+    wrapped = wf.params[0] if wf.params else "func"
+    i_gate = i_call = i_flag = i_ret = None
+    inst = retv = None
+    for i, st in enumerate(body):
+        if isinstance(st, ast.If) and isinstance(st.test, ast.UnaryOp) and isinstance(st.test.op, ast.Not) \
+                and isinstance(st.test.operand, ast.Attribute) and st.test.operand.attr == "is_open" \
+                and isinstance(st.test.operand.value, ast.Name) and any(isinstance(b, ast.Raise) for b in st.body) and not st.orelse:
+            i_gate, inst = i, st.test.operand.value.id
+        elif isinstance(st, ast.Assign) and isinstance(st.value, ast.Call) and isinstance(st.value.func, ast.Name) \
+                and st.value.func.id == wrapped and isinstance(st.targets[0], ast.Name):
+            i_call, retv = i, st.targets[0].id
+        elif isinstance(st, ast.Assign) and isinstance(st.targets[0], ast.Attribute) and st.targets[0].attr == "has_update" \
+                and isinstance(st.targets[0].value, ast.Name) and isinstance(st.value, ast.Constant) and st.value.value is True:
+            i_flag = i
+            flag_inst = st.targets[0].value.id
+        elif isinstance(st, ast.Return) and isinstance(st.value, ast.Name):
+            i_ret = i
+    gate = i_gate is not None
+    order = None not in (i_gate, i_call, i_flag, i_ret) and i_gate < i_call < i_flag < i_ret and flag_inst == inst \
+        and isinstance(body[i_ret].value, ast.Name) and body[i_ret].value.id == retv
+    # the instance is the first positional argument
+    first_arg = any(isinstance(st, ast.Assign) and isinstance(st.targets[0], ast.Name) and st.targets[0].id == inst
+                    and isinstance(st.value, ast.Subscript) and isinstance(st.value.slice, ast.Constant) and st.value.slice.value == 0
+                    for st in body) if inst else False
+    return {"gate": gate and first_arg, "order": bool(order) and first_arg, "loc": wf.loc()}
+
+
+def loop_target_names(st) -> set:
+    out = set()
+    tg = getattr(st, "target", None)
+    if tg is not None:
+        for n in ast.walk(tg):
+            if isinstance(n, ast.Name):
+                out.add(n.id)
+    return out
+
+
+def key_mentions(key, fid, names) -> bool:
+    """Does a canonical key refer to one of `names` defined in the frame `fid`?"""
+    if isinstance(key, tuple):
+        if len(key) >= 3 and key[0] == "n" and key[1] == fid and key[2] in names:
+            return True
+        return any(key_mentions(x, fid, names) for x in key if isinstance(x, tuple))
+    return False
+
+
+def purge_loop_facts(facts, st, fr):
+    """Facts about a loop's own variables do not survive the iteration that established them."""
+    names = loop_target_names(st)
+    if not names:
+        return facts
+    fid = frame_id(fr)
+    keep = frozenset(f for f in facts if not any(key_mentions(x, fid, names) for x in f if isinstance(x, tuple)))
+    return keep
